@@ -61,7 +61,8 @@ def main(pid=PID, extra_filter=None):
     jobs = [('<BDD as PartialEq>::eq on canonical diagrams k=3', bddcore.unit_bdd_eq, (3, {}))]
     for sh in shapes:
         fpn = repr(sh).count("'fp'")
-        kk = 2 if fpn >= 2 else k
+        heavy = fpn >= 1 and ("'cc'" in repr(sh) or "'cv'" in repr(sh) or evalcore.shape_size(sh) >= 3)
+        kk = 2 if (fpn >= 2 or heavy) else k
         jobs.append(('eval %r k=%d' % (sh, kk), unit_sketch, (sh, kk, dict(timeout=250 if quick else 1500))))
         if "'cc'" in repr(sh):
             jobs.append(('eval %r k=%d release profile (overflow wraps)' % (sh, kk), unit_sketch,
